@@ -844,7 +844,12 @@ pub fn c06(v: &View) -> Vec<Violation> {
                 }
             }
         }
-        // asks left in the mailbox fail
+        // asks left in the mailbox fail - once the hook in progress has finished: a kill takes
+        // effect between hooks, so an actor whose running hook never returns (an ask cycle the
+        // optional detection does not see) never gets to fail them
+        if stuck(v, a) {
+            continue;
+        }
         if let Some(h2) = v.phase_seq[1] {
             for o in v.ops.iter().filter(|o| o.a == a && o.b_seq < s && matches!(o.src, Src::Client(_))) {
                 if let Some((how, mid, _)) = o.send() {
@@ -980,6 +985,13 @@ pub fn c07(v: &View) -> Vec<Violation> {
                 continue;
             }
             for o in v.ops.iter().filter(|o| o.a == a && o.phase == 1 && o.src == Src::Driver) {
+                // a probe can itself wake the actor up (its arrival cancels an on_run that was
+                // parked in an ask, and the next on_run invocation runs its script): an actor
+                // that crashes then is no longer one that "never ends on its own"
+                let crashed_by = av.panic_seq.into_iter().chain(av.run_err.map(|r| r.0)).min();
+                if crashed_by.map(|c| o.e_seq.map(|e| c < e).unwrap_or(true)).unwrap_or(false) || v.kill_began_before(a, o.e_seq.unwrap_or(u64::MAX)) {
+                    continue;
+                }
                 if let Some((how, mid, _)) = o.send() {
                     let ok = if how.is_ask() { matches!(o.res, Some(Res::Rep { .. })) } else { matches!(o.res, Some(Res::Ok)) && v.handled_count(mid) == 1 };
                     if !ok {
